@@ -7,11 +7,61 @@ TB = ('Trusted: Coq 8.16.1 kernel incl. vm_compute (no native_compute), no decla
       'under /verif/harness, gcc/clang/libc/x86-64. Hand-written Gallina models are tied to /repo by correspondence runs '
       'on every check; regenerated models (coq/theories/Gen) by translators run on every check. ')
 CHECKS = {
+ 'C01': dict(
+   text='Coq theorems (all field type trees, all values, all start positions, all buffer contents): C01_ops_equal_layout (the C semantics of the operations built by the model of cgen._OpBuilder, with its statically tracked in-byte offsets and memcpy/bit-field choice, equals the layout specification), C01_struct_roundtrip (a CTF reader given only the generated TSDL type reads back the canonical form of the values from what was written, whatever is written later), C01_record_roundtrip (event dispatch on the header id + the four scopes). Ties re-run on every check: (1) model builder vs the REAL _DsOps captured from cgen (structural equality), (2) model TSDL generator vs the parsed REAL metadata, (3) model serialization + runtime vs the bytes produced by the compiled generated C, (4) oracle: the Coq reader applied to the REAL packets with the REAL parsed metadata returns the traced values.',
+   note=TB + 'Modelled, not verified: Layout/Model.v and Tracer/Model.v are hand-written (tied by correspondences 1-3); positions are unbounded nat (no uint32 wrap: >= 512 MiB records, S12); hypotheses: alignments 1/2/4/multiple of 8, array elements not dynamic arrays, well-typed arguments (strings without NUL, dynamic array length member = element count), unique event ids; the link between write_bits/enc_int and the byte-level bit-field macro is C08 + the byte correspondence, not a Coq lemma; harness/tsdl.py (TSDL parser) is trusted.',
+   technique='Coq proof (induction on field type trees: builder soundness + encode/decode round trip) + differential runs model vs real op trees / metadata / compiled tracer',
+   ref='5.C01'),
+ 'C05': dict(
+   text='Coq theorems on the tracer state machine model, for all configurations, oracles and histories: every timestamp written (packet beginning, packet end, record) is the most recent clock sample (C05_ts_is_latest_sample), a record timestamp is the sample taken at the entry of its tracing call (C05_record_ts_is_entry_sample), and under no clock wrap-around the written timestamps are non-decreasing in writing order, hence begin <= records <= end <= next begin (C05_ts_monotone, C05_ts_pairwise). Tie: the model is run against the compiled generated tracer on random histories (callback order, every context field after every call, every packet byte); oracle on the real packets: decoded timestamps are replayed clock samples, ordered.',
+   note=TB + 'Modelled: Tracer/Model.v hand-written, tied by correspondence; hypothesis nowrap (no reduction modulo 2^clock bits); that the stored bits are the value modulo the field size is the layout layer (C01/C08).',
+   technique='Coq proof (invariant over all histories) + differential run of the model vs the compiled tracer + decode oracle',
+   ref='5.C05'),
+ 'C06': dict(
+   text='Coq theorems on the tracer model for all configurations/oracles/histories: opening an open packet and closing a closed one are no-ops (C06_open_noop, C06_close_noop), effective open/close postconditions (C06_open_effective, C06_close_effective: is_open, at, content size, sequence number incremented iff the feature exists), accessor truth (C06_accessors: sequence number = packets handed over, discarded counter = discards), finalisation idiom flushes (C06_fini_flushes), callback protocol (C06_callback_protocol: tracer-initiated open only on a closed packet right after a "not full" answer, close only on an open packet) under positive record sizes and first packet opened, both hypotheses shown necessary by refuted examples. Tie: correspondence with the compiled tracer incl. packet_is_open at every callback entry, buffer swaps, random histories; protocol oracle on the real log.',
+   note=TB + 'Modelled: Tracer/Model.v; conformant platform = callbacks call the open/close functions, hand over the packet, may install a buffer; known findings S9/S18 (reservation not re-validated after a packet switch) can put at beyond packet_size; buf/buf_size accessors compared by correspondence only.',
+   technique='Coq proof (invariants over all histories) + differential run + protocol oracle on the implementation log',
+   ref='5.C06'),
+ 'C07': dict(
+   text='Coq theorems for all worlds: a tracing call that finds tracing disabled after its entry clock sample returns the world unchanged except the saved timestamp, invoking only the clock callback (C07_trace_disabled); a call that passed the test is insensitive to every toggle performed by callbacks during it - same log, packets, buffer, counters (C07_trace_atomic, simulation relation); re-enabling resumes at the position left by the last recorded event (C07_reenable_resumes). Tie: correspondence with toggles between calls and inside every callback kind; oracle: disabled calls leave every context field unchanged and invoke only the clock.',
+   note=TB + 'Modelled: Tracer/Model.v; the first packet is opened with tracing enabled (S10); interrupts are modelled as toggles at callback boundaries only (the C code reads the flag once, at entry).',
+   technique='Coq proof (simulation relation + case analysis) + differential run + oracle',
+   ref='5.C07'),
  'C08': dict(
    text='Coq theorem C08_bitfield_exact: for both byte orders, all start offsets 0..7, lengths 1..64, carriers 8/16/32/64 signed/unsigned, ALL values and ALL prior window contents, the transcribed bt_bitfield_write macro program returns exactly the CTF-specified window (no UB, no byte outside the window). Proved by reflection: generic soundness of a symbolic bit domain + kernel-evaluated sweep over the 8192 control cases. The transcription is tied to the generated barectf-bitfield.h by running the compiled header and the Coq model on the same cases.',
-   note=TB + 'Modelled, not verified: the hand transcription of the macro into register-machine instruction lists (C/Bitfield.v) — validated on every run against the compiled generated header on all 8192 control cases; C90 integer semantics (two\'s complement, arithmetic >> on signed, << of negative int as bit pattern).',
+   note=TB + 'Modelled, not verified: the hand transcription of the macro into register-machine instruction lists (C/Bitfield.v) - validated on every run against the compiled generated header on all 8192 control cases; C90 integer semantics (two\'s complement, arithmetic >> on signed, << of negative int as bit pattern).',
    technique='Coq proof by reflection (symbolic bits + vm_compute sweep) + differential run of model vs compiled generated header',
    ref='5.C08'),
+ 'C12': dict(
+   text='15 Coq theorems for ALL trees: the per-key patching table, key order, update = documented patch_spec on well-formed trees, totality, members merge as ordered map, null replaces, inclusion order/search order/cycle error, alias chains of any depth and alias cycle error, inheritance chain = fold of update. Tie: the REAL _update_node on generated tree pairs vs the Coq update (vm_compute), stage-level comparison of include / alias / inherit, end-to-end scenarios through effective_configuration_file; oracle = Python transcription of the documented table.',
+   note=TB + 'Modelled: Front/Patch.v, Include.v, Alias.v, Inherit.v hand-written (file system abstract; realpath/symlinks not modelled); hypotheses: no duplicate keys (PyYAML), well-formed members lists; known findings: alias name merged instead of replacing under $inherit, YAML anchor sharing mutated by in-place update.',
+   technique='Coq proof (induction on YAML trees) + differential run of the model vs _update_node and the real front end',
+   ref='5.C12'),
+ 'C13': dict(
+   text='Coq theorems: ID assignment is permutation invariant and equals the rank of the name (C13_ids_perm, C13_ids_rank, C13_ids_contiguous); every regenerated template skeleton iterates the name-hashed sets only through sorted loops, so rendering is independent of the iteration order for every interpretation of leaves and tests (C13_render_order_free + obligations C13_plan_sorted/closed on Gen/TemplatePlan, regenerated from /repo on every run); Python dict-fill loops are order-free. Oracle: same configuration generated in fresh processes under several PYTHONHASHSEED values and mapping permutations is byte-identical; IDs in metadata = IDs in C = model.',
+   note=TB + 'Trusted: tools/j2coq.py (jinja2 parser, fail-closed classification of set uses), Python ast scan of loops; uuid: auto excluded (documented).',
+   technique='Coq proof over regenerated template plans (translator) + permutation/hash-seed oracle',
+   ref='5.C13'),
+ 'C14': dict(
+   text='Coq theorems on cgen._ft_c_type translated from /repo on every run: C14_ctype (the chosen C type is the documented one for every well-formed field type), C14_protos (parameter lists = documented ones), C14_protos_count, C14_loop_var_name. Validation (named, not proved): generated files of random configurations compiled with gcc/clang -ansi -pedantic-errors -Wall -Wextra -Werror and g++/clang++ -std=c++98, header alone, glue re-declaring every function with the documented prototype.',
+   note=TB + 'Partial: that no compiler diagnoses anything for every configuration is a statement about compilers and is only sampled. Trusted: tools/py2coq.py (re-validated against the real Python function on enumerated arguments on every run). Known findings: name collisions of generated functions for crafted stream/event names, -Wtype-limits on zero-length static arrays.',
+   technique='Coq proof over a regenerated translation of _ft_c_type + compiler validation',
+   ref='5.C14'),
+ 'C15': dict(
+   text='Coq theorems: C15_escape_roundtrip (for every string the literal written with escape_dq - translated from /repo on every run - is read back by a reader written from the TSDL string literal grammar), C15_guards_adequate_all (every attribute line of the regenerated metadata templates is emitted exactly when configured; truthiness guards on integer attributes are rejected), C15_quoted_values_escaped, C15_required_attributes_present. Oracle: real metadata of boundary-value configurations parsed by an independent TSDL parser and compared attribute by attribute.',
+   note=TB + 'Trusted: tools/j2coq.py guard classification, tools/py2coq.py, harness/tsdl.py. Grammar well-formedness of whole files is what the parser accepting them means (validation).',
+   technique='Coq proof over regenerated guards and translated escape function + TSDL parse oracle',
+   ref='5.C15'),
+ 'C16': dict(
+   text='Coq theorems on the tracer model for all configurations/oracles/histories: every serialization into the packet buffer happens with the in-tracing-section flag set (C16_stores_in_section), every callback a tracing call invokes after its entry clock sample sees the flag set (C16_callbacks_in_section), the flag (and use_cur_last_event_ts) is clear after every public call that returns without error (C16_flag_clear_after_call). Tie: correspondence incl. the flag value at every callback entry and after every call.',
+   note=TB + 'Modelled: stores are logged at serialization granularity (one event per root structure write), in template statement order; the entry clock sample precedes the section (reading fixed in DESIGN.md section 9); the flag value at individual machine stores of the compiled code is not observed.',
+   technique='Coq proof (invariant over all histories) + differential run with flag values',
+   ref='5.C16'),
+ 'C19': dict(
+   text='Coq theorems on file-scope declarations regenerated from the C templates on every run: every external symbol starts with the identifier prefix (C19_symbols_prefixed), incomparable prefixes give disjoint symbol sets (C19_disjoint_prefix_disjoint_symbols; refuted for nested prefixes), file names, CLI --prefix override (translated function), default-stream macros and tracepoint() resolve to the tracing function. Validation: nm of compiled objects = model symbol set, two tracers linked and run in one program, gcc -E expansion of the shorthand macros.',
+   note=TB + 'Partial: linking is a toolchain fact (validated). Trusted: tools/cdecl_scan.py, tools/py2coq.py. Known finding: nested prefixes can collide (a_ + b_s vs a_b_ + s).',
+   technique='Coq proof over regenerated declaration list + nm/link validation',
+   ref='5.C19'),
 }
 PENDING = ['C01','C02','C03','C04','C05','C06','C07','C09','C10','C11','C12','C13','C14','C15','C16','C17','C18','C19']
 
